@@ -233,6 +233,42 @@ def N(t):
     return tstr(t)
 
 
+def guards_S(body, bb):
+    """Dominating facts of a block as expanded strings (no let-bound local names), one string per dominating edge."""
+    return [' | '.join(fact_s(f) for f in fs) for (_, _, fs) in body.dominating_facts(bb)]
+
+
+def root_local(body, operand, depth=0):
+    """Index of the user-declared local that an operand is (a reference to / a re-borrow of / a slice of), following
+    compiler temporaries; None if it cannot be traced. Identity of storage, independent of variable names."""
+    if depth > 12 or not isinstance(operand, dict) or operand.get('k') not in ('copy', 'move'):
+        return None
+    l = operand['place']['l']
+    loc = body.locals[l]
+    if loc.get('user') and loc.get('name'):
+        return l
+    ds = [d for d in body.defs().get(l, []) if d[2] != 'partial']
+    if len(ds) != 1:
+        return None
+    j, i, kind, payload = ds[0]
+    if kind == 'assign':
+        rv = payload
+        if rv['k'] == 'ref' or rv['k'] == 'addr':
+            pl = rv['place']
+            pl_loc = body.locals[pl['l']]
+            if pl_loc.get('user') and pl_loc.get('name'):
+                return pl['l']
+            return root_local(body, {'k': 'copy', 'place': {'l': pl['l'], 'p': [], 'ty': ''}}, depth + 1)
+        if rv['k'] in ('use', 'cast') and 'o' in rv:
+            return root_local(body, rv['o'], depth + 1)
+        return None
+    if kind in ('call', 'calldest'):
+        t = body.blocks[j]['term']
+        if t.get('args'):
+            return root_local(body, t['args'][0], depth + 1)
+    return None
+
+
 def deref_writes(body):
     """Writes through a reference held in a local: [(site, target string, value string)],
     e.g. `*v.index_mut(i) = x` gives target `Vec::index_mut(v, i)`."""
